@@ -159,7 +159,7 @@ def fixtures():
     got = set()
     for fn, b in sorted(ctx.prog.bodies.items()):
         if fn.startswith("fl::idx_"):
-            for i, f, nc, clamps, related in rules_coll.single_index_sites(ctx, fn, b):
+            for i, f, nc, clamps, related, recv in rules_coll.single_index_sites(ctx, fn, b):
                 if clamps and not related:
                     got.add(fn)
     expect("R-IDX-SINGLE", got, ["idx_bad_clamped"], ["idx_ok_checked", "idx_ok_clamp_behind_range_check"])
